@@ -11,6 +11,7 @@ A vector is a record
   args    0..3, throws 0..2 | "2same" (two throws fields of one exception type)
   ext     none | local | include                                                      service extends
   names   plain | keywords | cases | stems                                            name shapes
+  ns      plain | none | other | upper | keyword                                      shape of the go namespace
   ann     none | gotag | repeated                                                     annotations
   consts  none | scalars | containers | structs | enums | xinc                        constants
 Everything is deterministic in the vector (no randomness here).
@@ -82,9 +83,10 @@ def value_for(t, enum_ref="E", k=0):
 class World:
     """file layout of one program: where shared definitions live and how the main file refers to them"""
 
-    def __init__(self, inc, tdchain):
+    def __init__(self, inc, tdchain, nsmode="plain"):
         self.inc = inc
         self.tdchain = tdchain
+        self.nsmode = nsmode
         self.files = {}
         self.order = []
         self.td_count = 0
@@ -120,7 +122,19 @@ class World:
         self.main = self.files["a.thrift"]
 
     def _file(self, path, ns, includes=()):
-        f = {"path": path, "includes": list(includes), "namespaces": [{"lang": "go", "name": ns}], "defs": []}
+        # namespace shapes: none = no go namespace (package named after the file), upper = capitalised last segment,
+        # keyword = the last segment of the main file's namespace is a Go keyword, other = only another language's namespace
+        nss = [{"lang": "go", "name": ns}]
+        if self.nsmode == "none":
+            nss = []
+        elif self.nsmode == "other":
+            nss = [{"lang": "java", "name": "com.example." + self.ref_name(path)}]
+        elif self.nsmode == "upper":
+            parts = ns.split(".")
+            nss = [{"lang": "go", "name": ".".join(parts[:-1] + [parts[-1].capitalize()])}]
+        elif self.nsmode == "keyword" and path == "a.thrift":
+            nss = [{"lang": "go", "name": ns.rsplit(".", 1)[0] + ".type"}]
+        f = {"path": path, "includes": list(includes), "namespaces": nss, "defs": []}
         self.files[path] = f
         self.order.append(path)
         return f
@@ -254,7 +268,7 @@ def build(vec, shapes):
     v = dict(vec)
     kinds = v["kinds"]
     has = lambda k: kinds == "all" or kinds == k  # noqa: E731
-    w = World(v["inc"], int(v["tdchain"]))
+    w = World(v["inc"], int(v["tdchain"]), v.get("ns", "plain"))
     ns = NAME_SETS[v["names"]]
     home = w.files[w.home]
     main = w.main
